@@ -82,8 +82,9 @@ func TestC09(t *testing.T) {
 			return map[string]string{"kind": kind, "id": idBase.Client, "weights": map[bool]string{true: "corner", false: "default"}[w != nil]}
 		}
 		rep := map[string]any{"seed": fmt.Sprintf("%x", seed[:]), "corner": corner, "case": i}
+		var cfgProtos []string
 		build := func(id tls.ClientHelloID, viaSpec bool) (*wire.ClientHello, []byte, error) {
-			cfg := &tls.Config{ServerName: "example.test", OmitEmptyPsk: true}
+			cfg := &tls.Config{ServerName: "example.test", OmitEmptyPsk: true, NextProtos: cfgProtos}
 			var raw []byte
 			var err error
 			var pn string
@@ -129,139 +130,165 @@ func TestC09(t *testing.T) {
 		if i < 2 {
 			r.Sample(map[string]any{"id": idBase.Client, "seed": fmt.Sprintf("%x", seed[:8]), "fingerprint": n1})
 		}
-		ch := c1
-		viol := func(kind, what string) {
-			rep2 := map[string]any{"seed": fmt.Sprintf("%x", seed[:]), "corner": corner, "case": i, "hello": mon.Hex(raw1)}
-			r.Violation(sig(kind), what, rep2)
-		}
-		tls13 := false
-		for _, v := range ch.Versions {
-			if v == tls.VersionTLS13 {
-				tls13 = true
+		// a further connection whose caller also configured Config.NextProtos (the ALPN list a
+		// randomized spec sends comes from there): the consistency invariants hold for it too,
+		// and it is reproducible as well
+		hellos := []*wire.ClientHello{c1}
+		raws := [][]byte{raw1}
+		protoNote := []string{"Config.NextProtos unset"}
+		if i%2 == 0 {
+			cfgProtos = [][]string{{"h2", "http/1.1"}, {"http/1.1"}, {"h2"}, {"h3", "h2"}}[(i/2)%4]
+			c5, raw5, err5 := build(mk(), false)
+			c6, _, err6 := build(mk(), false)
+			cfgProtos = nil
+			if err5 != nil || err6 != nil {
+				r.Violation(sig("randomized_build_error"), fmt.Sprintf("with Config.NextProtos: %v / %v", err5, err6), rep)
+			} else {
+				if n5, n6 := NormHello(c5, NormOpts{}), NormHello(c6, NormOpts{}); n5 != n6 {
+					r.Violation(sig("not_seed_reproducible"), "with Config.NextProtos set, two builds from the same seed differ: "+diffNorm(n5, n6), rep)
+				}
+				hellos = append(hellos, c5)
+				raws = append(raws, raw5)
+				protoNote = append(protoNote, "Config.NextProtos set")
+				feature["with_config_nextprotos"]++
 			}
 		}
-		// suite order
-		last := 0
-		for _, s := range ch.Suites {
-			c := suiteClass(s)
-			if c < last {
-				viol("suite_order", fmt.Sprintf("suite %#04x (class %d) after a class-%d suite: %04x", s, c, last, ch.Suites))
-				break
+		for hi, ch := range hellos {
+			raw1 := raws[hi]
+			viol := func(kind, what string) {
+				rep2 := map[string]any{"seed": fmt.Sprintf("%x", seed[:]), "corner": corner, "case": i, "hello": mon.Hex(raw1), "config": protoNote[hi]}
+				r.Violation(sig(kind), what+" ["+protoNote[hi]+"]", rep2)
 			}
-			last = c
-			if tls13 && isRC4(s) {
-				viol("rc4_in_tls13_spec", fmt.Sprintf("RC4 suite %#04x in a TLS 1.3 spec", s))
-			}
-		}
-		hasALPN, hasALPS := ch.Has(wire.ExtALPN), ch.Has(wire.ExtALPSOld) || ch.Has(wire.ExtALPSNew)
-		if hasALPS && !hasALPN {
-			viol("alps_without_alpn", "application_settings without ALPN")
-		}
-		if idBase.Client == tls.HelloRandomizedALPN.Client && !hasALPN {
-			viol("alpn_variant_without_alpn", "RandomizedALPN without an ALPN extension")
-		}
-		if idBase.Client == tls.HelloRandomizedNoALPN.Client && hasALPN {
-			viol("noalpn_variant_with_alpn", "RandomizedNoALPN with an ALPN extension")
-		}
-		if tls13 {
-			feature["tls13"]++
-			hasPSS := false
-			for _, s := range ch.SigAlgs {
-				if s == uint16(tls.PSSWithSHA256) {
-					hasPSS = true
+			tls13 := false
+			for _, v := range ch.Versions {
+				if v == tls.VersionTLS13 {
+					tls13 = true
 				}
 			}
-			if !hasPSS {
-				viol("tls13_without_rsa_pss", fmt.Sprintf("TLS 1.3 spec without rsa_pss_rsae_sha256: %04x", ch.SigAlgs))
-			}
-			// padding is in the spec (it may be absent on the wire only when the policy says so)
-			if msg := boringPaddingProblem(ch); msg != "" {
-				viol("tls13_padding", "TLS 1.3 spec: "+msg)
-			}
-			// supported_versions == [max..min] contiguous, descending, starting at 1.3
-			ok := len(ch.Versions) >= 1 && ch.Versions[0] == tls.VersionTLS13
-			for k := 1; k < len(ch.Versions); k++ {
-				if ch.Versions[k] != ch.Versions[k-1]-1 {
-					ok = false
+			// suite order
+			last := 0
+			for _, s := range ch.Suites {
+				c := suiteClass(s)
+				if c < last {
+					viol("suite_order", fmt.Sprintf("suite %#04x (class %d) after a class-%d suite: %04x", s, c, last, ch.Suites))
+					break
+				}
+				last = c
+				if tls13 && isRC4(s) {
+					viol("rc4_in_tls13_spec", fmt.Sprintf("RC4 suite %#04x in a TLS 1.3 spec", s))
 				}
 			}
-			if !ok {
-				viol("supported_versions_range", fmt.Sprintf("supported_versions %04x is not [max..min]", ch.Versions))
+			hasALPN, hasALPS := ch.Has(wire.ExtALPN), ch.Has(wire.ExtALPSOld) || ch.Has(wire.ExtALPSNew)
+			if hasALPS && !hasALPN {
+				viol("alps_without_alpn", "application_settings without ALPN")
 			}
-			if !ch.Has(wire.ExtKeyShare) {
-				viol("tls13_without_key_share", "TLS 1.3 spec without key_share")
+			if idBase.Client == tls.HelloRandomizedALPN.Client && !hasALPN {
+				viol("alpn_variant_without_alpn", "RandomizedALPN without an ALPN extension")
 			}
-		} else {
-			if ch.Has(wire.ExtSupportedVersions) || ch.Has(wire.ExtKeyShare) || hasALPS {
-				viol("tls12_spec_with_tls13_extensions", "TLS 1.2 spec carries supported_versions / key_share / ALPS")
+			if idBase.Client == tls.HelloRandomizedNoALPN.Client && hasALPN {
+				viol("noalpn_variant_with_alpn", "RandomizedNoALPN with an ALPN extension")
 			}
-		}
-		listed := map[uint16]bool{}
-		for _, g := range ch.Groups {
-			listed[g] = true
-		}
-		shared := map[uint16]bool{}
-		for _, ks := range ch.KeyShares {
-			shared[ks.Group] = true
-			if !listed[ks.Group] {
-				viol("key_share_group_not_listed", fmt.Sprintf("key_share for group %#04x which supported_groups %04x does not list", ks.Group, ch.Groups))
-			}
-			if want := KeyShareSize(ks.Group); want > 0 && len(ks.Key) != want {
-				viol("key_share_size", fmt.Sprintf("group %#04x share has %d bytes", ks.Group, len(ks.Key)))
-			}
-		}
-		for _, g := range ch.Groups {
-			if isHybridPQ(g) {
-				feature["pq_listed"]++
-				if !shared[g] {
-					viol("hybrid_group_without_share", fmt.Sprintf("hybrid group %#04x is listed in supported_groups %04x but has no key share (shares: %d)", g, ch.Groups, len(ch.KeyShares)))
-				}
-			}
-		}
-		// weight corners
-		if w != nil {
-			bit := func(k uint) bool { return corner>>k&1 == 1 }
-			expect := func(name string, present, want bool, forced bool) {
-				if forced {
-					return
-				}
-				if present != want {
-					viol("weight_corner_ignored", fmt.Sprintf("weight %s=%v but feature present=%v", name, map[bool]int{true: 1, false: 0}[want], present))
-				}
-			}
-			if idBase.Client == tls.HelloRandomized.Client {
-				expect("Extensions_Append_ALPN", hasALPN, bit(0), false)
-			}
-			expect("TLSVersMax_Set_VersionTLS13", tls13, bit(1), false)
-			expect("Extensions_Append_Status", ch.Has(wire.ExtStatusRequest), bit(10), false)
-			expect("Extensions_Append_SCT", ch.Has(wire.ExtSCT), bit(11), false)
-			expect("Extensions_Append_Reneg", ch.Has(wire.ExtRenegotiationInfo), bit(12), false)
-			expect("Extensions_Append_EMS", ch.Has(wire.ExtEMS), bit(13), false)
-			hasSig := func(s tls.SignatureScheme) bool {
-				for _, x := range ch.SigAlgs {
-					if x == uint16(s) {
-						return true
+			if tls13 {
+				feature["tls13"]++
+				hasPSS := false
+				for _, s := range ch.SigAlgs {
+					if s == uint16(tls.PSSWithSHA256) {
+						hasPSS = true
 					}
 				}
-				return false
-			}
-			expect("SigAndHashAlgos_Append_ECDSAWithSHA1", hasSig(tls.ECDSAWithSHA1), bit(3), false)
-			expect("SigAndHashAlgos_Append_ECDSAWithP521AndSHA512", hasSig(tls.ECDSAWithP521AndSHA512), bit(4), false)
-			expect("SigAndHashAlgos_Append_PSSWithSHA256", hasSig(tls.PSSWithSHA256), bit(5), tls13)
-			expect("CurveIDs_Append_CurveP521", listed[uint16(tls.CurveP521)], bit(8), false)
-			expect("CurveIDs_Append_X25519", listed[uint16(tls.X25519)], bit(7), tls13)
-			if tls13 && hasALPN {
-				expect("Extensions_Append_ALPS", hasALPS, bit(16), false)
-			}
-			if !tls13 {
-				// padding weight is only decisive when the policy would pad; check spec-level presence via policy
-				if !bit(9) && ch.Has(wire.ExtPadding) {
-					viol("weight_corner_ignored", "weight Extensions_Append_Padding=0 but a padding extension is present")
+				if !hasPSS {
+					viol("tls13_without_rsa_pss", fmt.Sprintf("TLS 1.3 spec without rsa_pss_rsae_sha256: %04x", ch.SigAlgs))
+				}
+				// padding is in the spec (it may be absent on the wire only when the policy says so)
+				if msg := boringPaddingProblem(ch); msg != "" {
+					viol("tls13_padding", "TLS 1.3 spec: "+msg)
+				}
+				// supported_versions == [max..min] contiguous, descending, starting at 1.3
+				ok := len(ch.Versions) >= 1 && ch.Versions[0] == tls.VersionTLS13
+				for k := 1; k < len(ch.Versions); k++ {
+					if ch.Versions[k] != ch.Versions[k-1]-1 {
+						ok = false
+					}
+				}
+				if !ok {
+					viol("supported_versions_range", fmt.Sprintf("supported_versions %04x is not [max..min]", ch.Versions))
+				}
+				if !ch.Has(wire.ExtKeyShare) {
+					viol("tls13_without_key_share", "TLS 1.3 spec without key_share")
+				}
+			} else {
+				if ch.Has(wire.ExtSupportedVersions) || ch.Has(wire.ExtKeyShare) || hasALPS {
+					viol("tls12_spec_with_tls13_extensions", "TLS 1.2 spec carries supported_versions / key_share / ALPS")
 				}
 			}
-			feature["corner"]++
+			listed := map[uint16]bool{}
+			for _, g := range ch.Groups {
+				listed[g] = true
+			}
+			shared := map[uint16]bool{}
+			for _, ks := range ch.KeyShares {
+				shared[ks.Group] = true
+				if !listed[ks.Group] {
+					viol("key_share_group_not_listed", fmt.Sprintf("key_share for group %#04x which supported_groups %04x does not list", ks.Group, ch.Groups))
+				}
+				if want := KeyShareSize(ks.Group); want > 0 && len(ks.Key) != want {
+					viol("key_share_size", fmt.Sprintf("group %#04x share has %d bytes", ks.Group, len(ks.Key)))
+				}
+			}
+			for _, g := range ch.Groups {
+				if isHybridPQ(g) {
+					feature["pq_listed"]++
+					if !shared[g] {
+						viol("hybrid_group_without_share", fmt.Sprintf("hybrid group %#04x is listed in supported_groups %04x but has no key share (shares: %d)", g, ch.Groups, len(ch.KeyShares)))
+					}
+				}
+			}
+			// weight corners
+			if w != nil {
+				bit := func(k uint) bool { return corner>>k&1 == 1 }
+				expect := func(name string, present, want bool, forced bool) {
+					if forced {
+						return
+					}
+					if present != want {
+						viol("weight_corner_ignored", fmt.Sprintf("weight %s=%v but feature present=%v", name, map[bool]int{true: 1, false: 0}[want], present))
+					}
+				}
+				if idBase.Client == tls.HelloRandomized.Client {
+					expect("Extensions_Append_ALPN", hasALPN, bit(0), false)
+				}
+				expect("TLSVersMax_Set_VersionTLS13", tls13, bit(1), false)
+				expect("Extensions_Append_Status", ch.Has(wire.ExtStatusRequest), bit(10), false)
+				expect("Extensions_Append_SCT", ch.Has(wire.ExtSCT), bit(11), false)
+				expect("Extensions_Append_Reneg", ch.Has(wire.ExtRenegotiationInfo), bit(12), false)
+				expect("Extensions_Append_EMS", ch.Has(wire.ExtEMS), bit(13), false)
+				hasSig := func(s tls.SignatureScheme) bool {
+					for _, x := range ch.SigAlgs {
+						if x == uint16(s) {
+							return true
+						}
+					}
+					return false
+				}
+				expect("SigAndHashAlgos_Append_ECDSAWithSHA1", hasSig(tls.ECDSAWithSHA1), bit(3), false)
+				expect("SigAndHashAlgos_Append_ECDSAWithP521AndSHA512", hasSig(tls.ECDSAWithP521AndSHA512), bit(4), false)
+				expect("SigAndHashAlgos_Append_PSSWithSHA256", hasSig(tls.PSSWithSHA256), bit(5), tls13)
+				expect("CurveIDs_Append_CurveP521", listed[uint16(tls.CurveP521)], bit(8), false)
+				expect("CurveIDs_Append_X25519", listed[uint16(tls.X25519)], bit(7), tls13)
+				if tls13 && hasALPN {
+					expect("Extensions_Append_ALPS", hasALPS, bit(16), false)
+				}
+				if !tls13 {
+					// padding weight is only decisive when the policy would pad; check spec-level presence via policy
+					if !bit(9) && ch.Has(wire.ExtPadding) {
+						viol("weight_corner_ignored", "weight Extensions_Append_Padding=0 but a padding extension is present")
+					}
+				}
+				feature["corner"]++
+			}
 		}
 	}
+	r.Count("hellos_with_config_nextprotos", int64(feature["with_config_nextprotos"]))
 	r.Count("tls13_specs", int64(feature["tls13"]))
 	r.Count("pq_group_listed", int64(feature["pq_listed"]))
 	r.Count("corner_weight_cases", int64(feature["corner"]))
